@@ -43,10 +43,25 @@ def gen_c01(rnd, sid):
                 exc_handler=False, run_empty=True, deliver_at=[])
 
 
+def gen_c01_partial(rnd, sid):
+    """a handler enqueues an urgent and a less urgent signal, makes a partial processing call (which dispatches the urgent one, looks at the other and puts it
+    back), enqueues more signals of the less urgent priority and possibly processes again: the one put back keeps its place in front of the later ones"""
+    lo = rnd.choice([1, 5]); acts = []
+    for _ in range(rnd.randint(1, 3)):
+        acts += [["enq", "U1", rnd.choice([0, -1]), None, sid.next()] for _ in range(rnd.randint(1, 2))]
+        acts += [["enq", "U1", lo, None, sid.next()] for _ in range(rnd.randint(1, 2))]
+        acts.append(["proc", None])
+        acts += [["enq", "U1", lo, None, sid.next()] for _ in range(rnd.randint(1, 3))]
+    if rnd.random() < 0.5: acts.append(["proc", None])
+    handlers = [dict(cls="U0", hid=0, data=None, scripts=[acts]), dict(cls="U1", hid=1, data=None, scripts=[[]] * 40)]
+    return dict(op="machine", mode="c01", width=80, screens=[], handlers=handlers, init=[["enq", "U0", 0, None, sid.next()]], stdin=[], quit_cb=None, quit_screen=None,
+                exc_handler=False, run_empty=True, deliver_at=[])
+
+
 def generate(rnd, tier):
     n = 500 if tier == "quick" else 6000
     sid = SidCounter()
-    cases = [gen_c01(rnd, sid) for _ in range(n)]
+    cases = [gen_c01_partial(rnd, sid) for _ in range(n // 10)] + [gen_c01(rnd, sid) for _ in range(n)]
     cases += [gen_case(rnd, "loop", sid) for _ in range(n // 2)] + [gen_case(rnd, "app", sid) for _ in range(n // 5)]
     if tier == "thorough":
         from harness.gen.exhaustive import loop_programs
